@@ -41,6 +41,7 @@ var (
 	simDir  = flag.String("sim", "/verif/sim", "directory holding rt, simsync, simrand, inject")
 	pkgList = flag.String("pkgs", "swap messages timer txwatcher electrum lwk policy premium version peersync onchain lnd clightning wallet", "packages to instrument")
 	report  = flag.Bool("report", true, "print census")
+	glDir   = flag.String("glightning", "", "directory of the github.com/elementsproject/glightning module (tier 3 seam); empty = no seam")
 )
 
 type edit struct {
@@ -419,6 +420,25 @@ func (r *rewriter) renderRange(rs *ast.RangeStmt, id int) string {
 	return sb.String()
 }
 
+// copyTree copies a (read-only) module directory, making the copy writable.
+func copyTree(src, dst string) error {
+	return filepath.Walk(src, func(path string, fi os.FileInfo, err error) error {
+		if err != nil {
+			return err
+		}
+		rel, _ := filepath.Rel(src, path)
+		to := filepath.Join(dst, rel)
+		if fi.IsDir() {
+			return os.MkdirAll(to, 0o755)
+		}
+		b, err := os.ReadFile(path)
+		if err != nil {
+			return err
+		}
+		return os.WriteFile(to, b, 0o644)
+	})
+}
+
 func main() {
 	flag.Parse()
 	if *out == "" {
@@ -530,6 +550,51 @@ func main() {
 			if strings.HasSuffix(e.Name(), ".go") && !strings.HasSuffix(e.Name(), "_test.go") {
 				overlay[filepath.Join(*repo, "verifsim", vp, e.Name())] = filepath.Join(*simDir, vp, e.Name())
 			}
+		}
+	}
+	// tier 3 seam: the clightning adapter reaches lightningd and bitcoind through
+	// glightning's jrpc2.Client.Request* and gbitcoin.Bitcoin.request. Copies of those two
+	// files of the (pinned, read-only) glightning module get a hook at the top of these
+	// functions; with no hook installed they behave as before.
+	if *glDir != "" {
+		type patch struct{ file, fn, hook, tail string }
+		for _, pt := range []patch{
+			{"jrpc2/client.go", "func (c *Client) Request(m Method, resp interface{}) error {",
+				"\tif SimTransport != nil {\n\t\tif handled, err := SimTransport(c, m, resp, true); handled {\n\t\t\treturn err\n\t\t}\n\t}\n", ""},
+			{"jrpc2/client.go", "func (c *Client) RequestNoTimeout(m Method, resp interface{}) error {",
+				"\tif SimTransport != nil {\n\t\tif handled, err := SimTransport(c, m, resp, false); handled {\n\t\t\treturn err\n\t\t}\n\t}\n",
+				"\n// SimTransport, when set, answers requests instead of the socket (simulation builds only).\nvar SimTransport func(c *Client, m Method, resp interface{}, withTimeout bool) (bool, error)\n\n// SimTimeout is the request timeout configured for this client.\nfunc (c *Client) SimTimeout() time.Duration { return c.timeout * time.Second }\n"},
+			{"gbitcoin/bitcoind.go", "func (b *Bitcoin) request(m jrpc2.Method, resp interface{}) error {",
+				"\tif SimTransport != nil {\n\t\tif handled, err := SimTransport(b, m, resp); handled {\n\t\t\treturn err\n\t\t}\n\t}\n",
+				"\n// SimTransport, when set, answers requests instead of the HTTP endpoint (simulation builds only).\nvar SimTransport func(b *Bitcoin, m jrpc2.Method, resp interface{}) (bool, error)\n"},
+		} {
+			orig := filepath.Join(*glDir, pt.file)
+			// (go build refuses overlay replacements beneath GOMODCACHE, so the module is copied
+			// whole next to the overlay and the harness go.mod replaces the module with the copy)
+			copyRoot := filepath.Join(*out, "glightning")
+			if _, err := os.Stat(filepath.Join(copyRoot, "go.mod")); err != nil {
+				if err := copyTree(*glDir, copyRoot); err != nil {
+					errs = append(errs, err.Error())
+					continue
+				}
+			}
+			dst := filepath.Join(copyRoot, pt.file)
+			srcBytes, err := os.ReadFile(dst)
+			if err != nil {
+				errs = append(errs, err.Error())
+				continue
+			}
+			text := string(srcBytes)
+			if strings.Count(text, pt.fn) != 1 {
+				errs = append(errs, fmt.Sprintf("glightning seam: %q not found exactly once in %s", pt.fn, orig))
+				continue
+			}
+			text = strings.Replace(text, pt.fn, pt.fn+"\n"+pt.hook, 1) + pt.tail
+			if err := os.WriteFile(dst, []byte(text), 0o644); err != nil {
+				errs = append(errs, err.Error())
+				continue
+			}
+			census["glightning:transport-hook"]++
 		}
 	}
 	// injected overlay-only files: <sim>/inject/<pkg path>/<file>.go -> /repo/<pkg path>/zz_verif_<file>.go
